@@ -10,6 +10,7 @@ import (
 	"maps"
 	"math"
 	"slices"
+	"strconv"
 	"strings"
 
 	"github.com/mazrean/kessoku/internal/pkg/collection"
@@ -205,10 +206,19 @@ func createASTTypeExpr(pkg string, t types.Type, varPool *VarPool, imports map[s
 			if err != nil {
 				return nil, fmt.Errorf("field %d: %w", i, err)
 			}
-			fields = append(fields, &ast.Field{
+			field := &ast.Field{
 				Names: []*ast.Ident{ast.NewIdent(typ.Field(i).Name())},
 				Type:  expr,
-			})
+			}
+			if typ.Field(i).Embedded() {
+				// an embedded field has no name of its own
+				field.Names = nil
+			}
+			if tag := typ.Tag(i); tag != "" {
+				// struct tags are part of the type's identity
+				field.Tag = &ast.BasicLit{Kind: token.STRING, Value: strconv.Quote(tag)}
+			}
+			fields = append(fields, field)
 		}
 		return &ast.StructType{
 			Fields: &ast.FieldList{
